@@ -55,5 +55,6 @@ def run(rep, tier, seed):
     rep.level = "exploration"
     rep.assume("A1", "A4", "A6", "A8")
     D.run_contracts(rep, "C18", D.relational(), tier)
+    D.run_contracts(rep, "C18", D.bounds(), tier, also=("C13",))
     t3(rep, tier, seed)
     D.link_falsifier(rep)
